@@ -33,6 +33,11 @@ class EngineProp(PropBase):
         return engine.run_case(case)
 
     def coq_check(self, case, obs):
+        if '"genexp"' in json.dumps(case['lib']):
+            # a lazily evaluated generator expression: values of the model are immutable snapshots, so
+            # the model is silent here (counted as outside the model); the reference interpreter, which
+            # pulls the items one by one against its live context, is the oracle
+            return '2%nat'
         return engine.coq_obs_check(case, obs)
 
     def coq_model_obs(self, case):
@@ -51,6 +56,7 @@ class EngineProp(PropBase):
 
 
 # ---------------------------------------------------------------- reference comparison
+import json  # noqa: E402
 import refinterp  # noqa: E402
 import pv  # noqa: E402
 from core import fail  # noqa: E402
